@@ -9,6 +9,7 @@ members in sequence, optional members are present when encoded.  Snapshot object
 usage: c14_vectors.py <out dir>
 writes <out dir>/<crate>.vec, one vector per line:
     game|system <id> ok|err <hex payload>        id: decimal ordinal or uuid (32 hex digits)
+    connless <id> ok|err <hex payload>           id: the eight id bytes (16 hex digits)
     obj <id> ok|err <int,int,...> [<indices of boolean members>]
 ok  = canonical encoding of a value inside every declared constraint: must decode without warning and re-encode to
       the same bytes / ints
@@ -108,6 +109,20 @@ class Spec:
             return [[('b', bytes(range(16)))], [('b', b'\xff' * 16)]], []
         if k == 'sha256':
             return [[('b', bytes(range(32)))]], []
+        # connectionless messages (gamenet/*/src/msg/connless.rs): raw big-endian / raw byte members, integers written as
+        # NUL-terminated decimal strings, opaque tails
+        if k == 'be_uint16':
+            return [[('b', b'\x00\x00')], [('b', b'\xff\xff')], [('b', b'\x12\x34')]], []
+        if k == 'uint8':
+            return [[('b', b'\x00')], [('b', b'\xff')], [('b', b'\x7f')]], []
+        if k == 'int32_string':
+            good = [0, 1, -1, I32_MAX, I32_MIN, -1000000000, 1000000000, -999999999, 42, -2147483647]
+            bad = [b'abc', b'', b'2147483648', b'-2147483649', b'1x', b'-', b' 1']
+            return [[('b', str(v).encode() + b'\0')] for v in good], [[('b', x + b'\0')] for x in bad]
+        if k == 'packed_addresses':
+            return [[('b', b'')], [('b', bytes(range(18)))], [('b', bytes(range(36)))]], []
+        if k == 'serverinfo_client':
+            return [[('b', b'')], [('b', b'name\0clan\0-1\x0012\x001\0')], [('b', b'\x00\x01\xff tail')]], []
         if k == 'optional':
             g, b = self.variants(t['inner'], ints_only)
             return g, b          # present; (absent decodes to None but cannot be re-encoded)
@@ -136,7 +151,7 @@ class Spec:
         # truncation: drop the last atom of a canonical encoding (only meaningful if there is one)
         if goods and goods[0]:
             last = goods[0][-1]
-            if last[0] in ('i', 'B') or (last[0] == 'b' and len(last[1]) > 0 and not (members[-1]['type']['kind'] in ('rest', 'optional'))):
+            if last[0] in ('i', 'B') or (last[0] == 'b' and len(last[1]) > 0 and not (members[-1]['type']['kind'] in ('rest', 'optional', 'packed_addresses', 'serverinfo_client'))):
                 if not (members[-1]['type']['kind'] == 'optional'):
                     bads.append(goods[0][:-1])
         return goods, bads
@@ -181,6 +196,18 @@ def main(out_dir):
                     lines.append('%s %s ok %s' % (section, mid, enc_bytes(a).hex() or '-'))
                 for a in bads:
                     lines.append('%s %s err %s' % (section, mid, enc_bytes(a).hex() or '-'))
+        for m in d.get('connless_messages', []):
+            try:
+                mid = bytes(m['id']).hex()
+                assert len(mid) == 16
+                goods, bads = spec.struct_variants(m['members'], False)
+            except Unsupported as e:
+                skipped.append('connless %s (%s)' % ('_'.join(m['name']), e))
+                continue
+            for a in goods:
+                lines.append('connless %s ok %s' % (mid, enc_bytes(a).hex() or '-'))
+            for a in bads:
+                lines.append('connless %s err %s' % (mid, enc_bytes(a).hex() or '-'))
         for o in d.get('snapshot_objects', []):
             try:
                 oid = fmt_id(o['id'])
